@@ -120,7 +120,7 @@ def shard(ctx):
             ctx.count()
             ctx.event("threshold_next_to_no_feed_result")
             run_case(ctx, iso3, dict(options, MINIMUM_PERCENT_FED_BEFORE_NONHUMAN_CONSUMPTION_ALLOWED=T2), "c03b_%d_%d" % (ctx.shard, ctx.evaluations))
-    drive(ctx, strategy(), body, 100 if thorough else 8, shrink=False, tag="runs")
+    drive(ctx, strategy(), body, 100 if thorough else 20, shrink=False, tag="runs")
     # the extremes of the input table are always run (absolute thresholds and tolerances bite at the smallest rows), two thresholds
     model.run_fixed(ctx, model.extreme_cases(thresholds=(100.0, 2.5)), lambda iso, o, k: (ctx.count(), run_case(ctx, iso, o, "c03x_%s" % iso)))
     if thorough:
